@@ -46,7 +46,7 @@ type tally struct {
 	// the other bundled collector, metrics.GoMetricsCollector (prefix + label), writing to an
 	// in-memory go-metrics sink; allf/gf shadow what it must hold (go-metrics takes float32)
 	gc   *metrics.GoMetricsCollector
-	sink *gometrics.InmemSink
+	sink *nestSink
 	allf map[string]float64
 	gf   map[string]float32
 	gerr string
@@ -55,9 +55,53 @@ type tally struct {
 var goMetricsPrefix = []string{"vf", "wal"}
 var goMetricsLabels = []gometrics.Label{{Name: "node", Value: "n1"}}
 
-func newGoMetrics() (*metrics.GoMetricsCollector, *gometrics.InmemSink) {
-	sink := gometrics.NewInmemSink(1000*time.Hour, 2000*time.Hour)
-	cfg := gometrics.DefaultConfig("svc")
+// nestSink: while one observation is inside the sink a second one is made through the same
+// collector (what an overlapping API call of another goroutine does); the key the first one
+// handed over must not change under it.  No service name is configured, so go-metrics passes
+// the collector's key slice through to the sink as it is.
+type nestSink struct {
+	*gometrics.InmemSink
+	gc     *metrics.GoMetricsCollector
+	inNest int32
+	nests  int64
+}
+
+func (n *nestSink) nest() {
+	if n.gc == nil || !atomic.CompareAndSwapInt32(&n.inNest, 0, 1) {
+		return
+	}
+	defer atomic.StoreInt32(&n.inNest, 0)
+	done := make(chan struct{})
+	go func() {
+		defer close(done)
+		defer func() { recover() }()
+		n.gc.IncrementCounter("nest_probe", 1)
+	}()
+	select {
+	case <-done:
+		atomic.AddInt64(&n.nests, 1)
+	case <-time.After(300 * time.Millisecond): // a collector that serialises its calls: the probe lands later
+		<-done
+		atomic.AddInt64(&n.nests, 1)
+	}
+}
+func (n *nestSink) IncrCounterWithLabels(key []string, val float32, labels []gometrics.Label) {
+	if atomic.LoadInt32(&n.inNest) == 0 {
+		n.nest()
+	}
+	n.InmemSink.IncrCounterWithLabels(key, val, labels)
+}
+func (n *nestSink) SetGaugeWithLabels(key []string, val float32, labels []gometrics.Label) {
+	if atomic.LoadInt32(&n.inNest) == 0 {
+		n.nest()
+	}
+	n.InmemSink.SetGaugeWithLabels(key, val, labels)
+}
+
+func newGoMetrics() (*metrics.GoMetricsCollector, *nestSink) {
+	sink := &nestSink{InmemSink: gometrics.NewInmemSink(1000*time.Hour, 2000*time.Hour)}
+	cfg := gometrics.DefaultConfig("")
+	cfg.ServiceName = ""
 	cfg.EnableHostname = false
 	cfg.EnableHostnameLabel = false
 	cfg.EnableServiceLabel = false
@@ -66,7 +110,9 @@ func newGoMetrics() (*metrics.GoMetricsCollector, *gometrics.InmemSink) {
 	if err != nil {
 		panic(err)
 	}
-	return metrics.NewGoMetricsCollector(goMetricsPrefix, goMetricsLabels, gm), sink
+	gc := metrics.NewGoMetricsCollector(goMetricsPrefix, goMetricsLabels, gm)
+	sink.gc = gc
+	return gc, sink
 }
 
 // forward one observation to the GoMetricsCollector; a panic there is remembered (the
@@ -90,7 +136,14 @@ func (t *tally) goMetricsDiff() string {
 	if len(goMetricsPrefix) != 2 || goMetricsPrefix[0] != "vf" || goMetricsPrefix[1] != "wal" {
 		return fmt.Sprintf("the collector modified the caller's prefix slice: %v", goMetricsPrefix)
 	}
-	key := func(n string) string { return "svc.vf.wal." + n + ";node=n1" }
+	key := func(n string) string { return "vf.wal." + n + ";node=n1" }
+	want := map[string]float64{}
+	for n, v := range t.allf {
+		want[n] = v
+	}
+	if k := atomic.LoadInt64(&t.sink.nests); k > 0 {
+		want["nest_probe"] = float64(k)
+	}
 	cs, gs := map[string]float64{}, map[string]float32{}
 	for _, iv := range t.sink.Data() {
 		iv.RLock()
@@ -102,13 +155,13 @@ func (t *tally) goMetricsDiff() string {
 		}
 		iv.RUnlock()
 	}
-	for n, v := range t.allf {
+	for n, v := range want {
 		if got, ok := cs[key(n)]; !ok || got != v {
 			return fmt.Sprintf("counter %s: sink holds %v under %q, %v was added", n, cs[key(n)], key(n), v)
 		}
 	}
-	if len(cs) != len(t.allf) {
-		return fmt.Sprintf("sink holds %d counters, %d were used", len(cs), len(t.allf))
+	if len(cs) != len(want) {
+		return fmt.Sprintf("sink holds %d counters, %d were used", len(cs), len(want))
 	}
 	for n, v := range t.gf {
 		if got, ok := gs[key(n)]; !ok || got != v {
